@@ -338,6 +338,17 @@ func callIn(s ast.Stmt) (call *ast.CallExpr, isExprStmt bool) {
 		if len(x.Results) == 1 {
 			return plainCall(x.Results[0]), false
 		}
+		// `return h(x), nil`: one call among operands that evaluate nothing else
+		var only *ast.CallExpr
+		for i, e := range x.Results {
+			if c := plainCall(e); c != nil {
+				rest := append(append([]ast.Expr{}, x.Results[:i]...), x.Results[i+1:]...)
+				if only == nil && noCalls(rest) {
+					only = c
+				}
+			}
+		}
+		return only, false
 	case *ast.IfStmt:
 		if x.Init != nil {
 			if a, ok := x.Init.(*ast.AssignStmt); ok {
@@ -625,6 +636,9 @@ func (il *inliner) tryStmt(p *packages.Package, file string, s ast.Stmt) (inline
 	g.edits = append(g.edits, srcEdit{off: g.start, end: g.start, text: b.String()})
 	// the call itself
 	cs, ce := il.off(call.Pos()), il.off(call.End())
+	if rs, isRet := s.(*ast.ReturnStmt); isRet && len(rs.Results) > 1 && len(resVars) != 1 {
+		return inlineGroup{}, false
+	}
 	if isExprStmt {
 		g.edits = append(g.edits, srcEdit{off: cs, end: ce, text: "_ = 0" + il.lineDir(call.End())})
 	} else {
